@@ -406,6 +406,105 @@ def g_mutable_default(ck, funcs):
     ck.extra.setdefault('generic_counts', {})['G-DEFAULT mutable defaults found'] = n
 
 
+NDARRAY_ONLY = ('astype', 'reshape', 'ravel', 'flatten', 'sum', 'mean', 'cumsum', 'nonzero', 'transpose', 'squeeze', 'tolist', 'any', 'all', 'argsort')
+
+
+def g_list_as_array(ck, funcs):
+    """G-EMPTYLOOP: a name that starts as a Python list display and becomes an array only inside a loop (`idx = []; for ...: idx =
+    numpy.append(idx, ...)`) is still the list when the loop runs zero times; an array-only method called on it afterwards (`idx.astype`)
+    raises AttributeError for the empty input.  Decided on reaching definitions: the list display reaches the method call."""
+    n = 0
+    for f in funcs:
+        try:
+            cfg = f.cfg
+        except Exception:
+            continue
+        for c in _scope_nodes(f):
+            if not (isinstance(c, ast.Call) and isinstance(c.func, ast.Attribute) and c.func.attr in NDARRAY_ONLY and isinstance(c.func.value, ast.Name)):
+                continue
+            v = c.func.value.id
+            if v in f.params:
+                continue
+            try:
+                node = cfg.stmt_node_containing(c)
+            except Exception:
+                node = None
+            if node is None:
+                continue
+            byid = {nd.id: nd for nd in cfg.nodes}
+            defs = [byid[i] for i in cfg.defs_reaching(node, v) if i in byid]
+            lists = [d for d in defs if isinstance(d.ast, ast.Assign) and isinstance(d.ast.value, (ast.List, ast.ListComp))
+                     and any(isinstance(t, ast.Name) and t.id == v for t in d.ast.targets)]
+            others = [d for d in defs if d not in lists]
+            if not lists or not others:
+                continue
+            n += 1
+            o = ck.ob('G-EMPTYLOOP', f, c, c)
+            o.fail('`%s` is still the Python list of L%d when the loop that turns it into an array runs zero times (an empty input): '
+                   '`.%s` then raises AttributeError' % (v, lists[0].ast.lineno, c.func.attr))
+    ck.extra.setdefault('generic_counts', {})['G-EMPTYLOOP list-or-array receivers'] = n
+
+
+def g_none_belief(ck, funcs):
+    """G-BELIEF (contradicting beliefs, Engler et al.): a function that reads `X.a` inside `try: ... except AttributeError:` believes that
+    X may be None (or lack the attribute).  When the same function then stores an attribute on X - `X.b = ...` - without a test that X
+    is not None and outside any such try, the path on which the belief is true (X is None) raises the very AttributeError the function
+    set out to handle."""
+    n = 0
+    for f in funcs:
+        nodes = _scope_nodes(f)
+        beliefs = {}
+        for t in nodes:
+            if not isinstance(t, ast.Try):
+                continue
+            catches = any(h.type is None or any(isinstance(x, ast.Name) and x.id in ('AttributeError', 'Exception') for x in ast.walk(h.type)) for h in t.handlers)
+            if not catches:
+                continue
+            for st in t.body:
+                for x in ast.walk(st):
+                    if isinstance(x, ast.Attribute) and isinstance(x.ctx, ast.Load) and isinstance(x.value, (ast.Name, ast.Attribute)):
+                        beliefs.setdefault(ast.unparse(x.value), t)
+        beliefs = {k: v for k, v in beliefs.items() if k not in ('self', 'cls') and not k.split('.')[0] in ('numpy', 'np', 'os', 'datetime', 'json')}
+        if not beliefs:
+            continue
+        par = {}
+        for x in nodes:
+            for ch in ast.iter_child_nodes(x):
+                par[id(ch)] = x
+        for x in nodes:
+            if not (isinstance(x, ast.Attribute) and isinstance(x.ctx, ast.Store) and ast.unparse(x.value) in beliefs):
+                continue
+            recv = ast.unparse(x.value)
+            # protected: inside a try that catches AttributeError, or under a test mentioning `recv is not None` / `recv` / hasattr(recv...)
+            prot = False
+            cur = x
+            while id(cur) in par:
+                up = par[id(cur)]
+                if isinstance(up, ast.Try) and cur in up.body and any(h.type is None or 'AttributeError' in ast.unparse(h.type) or 'Exception' in ast.unparse(h.type) for h in up.handlers):
+                    prot = True
+                if isinstance(up, (ast.If, ast.IfExp)) and recv in ast.unparse(up.test):
+                    prot = True
+                cur = up
+            # an earlier guard clause `if recv is None: raise / return`
+            for y in nodes:
+                if isinstance(y, ast.If) and recv in ast.unparse(y.test) and 'None' in ast.unparse(y.test) and y.lineno < x.lineno and \
+                        any(isinstance(z, (ast.Raise, ast.Return)) for z in y.body):
+                    prot = True
+            n += 1
+            o = ck.ob('G-BELIEF', f, stmt_text(par, x), x)
+            (o.ok('guarded') if prot else
+             o.fail('`%s` is read under `except AttributeError` at L%d (it may be None), yet `%s.%s` is assigned without a test: when %s is None '
+                    'the assignment raises the AttributeError the function meant to handle' % (recv, beliefs[recv].lineno, recv, x.attr, recv)))
+    ck.extra.setdefault('generic_counts', {})['G-BELIEF attribute stores on a possibly-None receiver'] = n
+
+
+def stmt_text(par, x):
+    cur = x
+    while id(cur) in par and not isinstance(cur, ast.stmt):
+        cur = par[id(cur)]
+    return ast.unparse(cur)[:80]
+
+
 def _scope_nodes(f):
     out = []
     def rec(nd):
@@ -441,4 +540,6 @@ def run_generic(ck, roots, stop_modules=(), zero_iter_funcs=(), accepted_unbound
     g_return(ck, funcs)
     g_unbound(ck, funcs, zero_iter_funcs=zero_iter_funcs, accepted=accepted_unbound)
     g_mutable_default(ck, funcs)
+    g_list_as_array(ck, funcs)
+    g_none_belief(ck, funcs)
     return funcs
